@@ -20,7 +20,7 @@ for pid in ids:
         engine="verus-contracts",
         level_claimed=dict(category="proof", text=s.get("level_text", ""), design_ref=s.get("design_ref", "DESIGN.md section 5 " + pid)),
         level_note=s.get("level_note", ""),
-        technique="contract-based deductive verification (Verus) of functions extracted from /repo/src on every run" + (s.get("technique_extra") or ""),
+        technique="contract-based deductive verification (Verus): requires/ensures/invariants/lemmas spliced onto the real functions, extracted mechanically from /repo/src on every run, discharged function by function; must-fail canaries against vacuity; a hand-written scenario library replayed on the real crate as labelled bounded stand-in / witness search when the verifier is undecided" + (s.get("technique_extra") or ""),
     ))
 nal = []
 for pid in ids:
@@ -37,7 +37,7 @@ m = dict(
     engines=[dict(name="verus-contracts", path="tools/check.py", serves_properties=[c["property_id"] for c in checks],
                   kind_free_text="extract real functions -> splice contracts -> verus; must-fail canaries; origin map from diagnostics to clauses")],
     checks=checks,
-    notes="See DESIGN.md. Exit 2 from a check means undecided (lost anchor / front-end error / resource limit), never a violation.",
+    notes="See DESIGN.md (sections 11-13 are the as-built record). An UNDECIDED line (lost anchor / construct outside the verifier's reach / resource limit) is never a violation: the bounded scenario stand-in then decides (VIOLATION + exit 1 if a scenario fails, BOUNDED-ONLY + exit 0 if all pass, evidence level 'other'); exit 2 only if nothing could be explored.",
     not_applicable=nal,
 )
 json.dump(m, open(os.path.join(V, "MANIFEST.json"), "w"), indent=1)
